@@ -93,7 +93,14 @@ def gen_doc(rng, separated=False):
     if rng.random() < 0.3:
         body = dd.sprinkle(rng, body, 0.15, 0.1)
     head = dd.header(wrap="YES" if wrapped else "NO", null=ntext, declared=dd.names(d))
-    text = dd.assemble(head, "~A", body, rng.choice(dd.AFTER) if rng.random() < 0.3 else [], eol=rng.choice(["\n", "\n", "\r\n"]),
+    after = rng.choice(dd.AFTER) if rng.random() < 0.3 else []
+    if rng.random() < 0.2:
+        # an item that merely happens to be called NULL in another section (only ~Well's NULL steers): its value is one of the
+        # ordinary sample values, so that it would show if it were applied
+        other = rng.choice([t for t in ORDINARY if nullv is None or float(t) != nullv])
+        after = rng.choice([["~P", "NULL. %s : a parameter named NULL" % other], ["~Parameter", "X. 5 : d", "null. %s : p" % other],
+                            ["~Tops", "NULL. %s : custom" % other]])
+    text = dd.assemble(head, "~A", body, after, eol=rng.choice(["\n", "\n", "\r\n"]),
                        final_newline=rng.random() < 0.85)
     return dict(text=text, cells=cells, c=c, r=r, d=d, wrapped=wrapped, null_text=ntext, nullv=nullv, interesting=interesting)
 
@@ -178,8 +185,26 @@ def cycle(run, doc, res, case):
     if any(m is None for m in m1):
         return
     s = io.StringIO()
+    rng = getattr(run, "rng", None) or __import__("random").Random(0)
+    # any writer options: every NaN goes out as the text of the current NULL, whatever the number format
+    opts = dict(version=rng.choice([1.2, 2.0]))
+    if case.get("write_options"):        # replay / shrink: the recorded options
+        opts = dict(case["write_options"])
+        if "column_fmt" in opts:
+            opts["column_fmt"] = {int(k): v for k, v in opts["column_fmt"].items()}
+    elif rng.random() < 0.6:
+        opts.update(fmt=rng.choice(["%.5f", "%.1f", "%10.3f", "%.0f", "%12.0f", "%.8f"]), len_numeric_field=rng.choice([None, -1, -1, 12, 20]),
+                    wrap=rng.choice([None, False, True]))
+        if rng.random() < 0.3:
+            opts["column_fmt"] = {rng.randrange(len(m1)): rng.choice(["%.1f", "%7.1f", "%.3f"])}
+    fmts = [opts.get("column_fmt", {}).get(j, opts.get("fmt", "%.5f")) for j in range(len(m1))]
+    for j, c in enumerate(las.curves):
+        if j > 0 and any((x == x) and abs(x) != float("inf") and float(fmts[j] % x) == doc["nullv"] for x in c.data.tolist()):
+            run.dist["cycle-skipped(a finite sample prints like NULL)"] += 1      # C06_roundtrip_mask_needs_noNullClash
+            return
+    case = dict(case, write_options={k: (v if not isinstance(v, dict) else {str(a): b for a, b in v.items()}) for k, v in opts.items()})
     try:
-        las.write(s, version=2.0)
+        las.write(s, **opts)
         las2 = lasio.read(io.StringIO(s.getvalue()))
     except Exception as e:
         run.fail("cycle-error", case, repr(e)[:200])
